@@ -116,11 +116,18 @@ func Verif_C07_before_handshake() {
 	verifapi.SelectFork(false)
 	n := verifNetceptor("A")
 	n.verifConn("C", 1)
+	n.s.knownConnectionCosts["A"] = map[string]float64{"C": 1}
+	n.s.knownConnectionCosts["C"] = map[string]float64{"A": 1}
 	d := verifAnyDatagram()
 	sess, _ := verifRunProtocol(n, [][]byte{d}, &BackendInfo{connectionCost: 1})
 	verifapi.Cover("session-ended")
 	verifapi.Assert("session-closed", *sess.closed >= 1)
 	verifapi.Assert("no-lock-left-held", verifapi.HeldLocks() == 0)
+	// whatever the stranger sent (including a handshake under the name of the connected peer C), the node still
+	// serves its well-behaved peer: connection entry and link costs of C are intact
+	_, other := n.s.connections["C"]
+	verifapi.Assert("well-behaved-peer-still-connected", other)
+	verifapi.Assert("well-behaved-peer-still-routed", verifapi.All(n.s.knownConnectionCosts["A"]["C"] == 1, n.s.knownConnectionCosts["C"]["A"] == 1))
 }
 
 // Verif_C07_after_handshake: a correct handshake from peer B, then any datagram.
